@@ -73,6 +73,19 @@ Proof.
   vm_compute. discriminate.
 Qed.
 
+(* D10 LineEndsInsideEscape, C20: a wrapped line that ends inside an unterminated escape
+   sequence ("aaaa b" followed by a lone ESC, one column of width 4 between "|" gaps): the
+   padding that follows the lone ESC is swallowed by display_width, so the rows, built
+   correctly cell by cell, do not have the same display width although no wrapped line is
+   wider than the column.  First-fit, ASCII separator, break_words on, no splitter. *)
+From TW Require Import Columns.
+Definition d10_o := mkOptions 6 LE_LF [] [] true FirstFit SepAscii SplNone.
+Definition d10_text : str := [97;97;97;97;32;98;27].
+Theorem known_D10_C20 :
+  exists r1 r2, wrap_columns ex_cw ex_alnum (fun _ => []) custom3 ofit_dp d10_o d10_text 1 [124] [124] [124] = Some [r1; r2] /\ dw ex_cw r1 = 6 /\ dw ex_cw r2 = 5.
+Proof. eexists. eexists. split; [vm_compute; reflexivity|]. split; vm_compute; reflexivity. Qed.
+
+Print Assumptions known_D10_C20.
 Print Assumptions known_D6_C05.
 Print Assumptions known_D9_C05.
 Print Assumptions known_D6_C13.
